@@ -79,6 +79,8 @@ class Gen:
                 kinds = ['para', 'para+lit', 'bullets']
             if self.fmt in ('google', 'numpy') and depth == 0:
                 kinds = ['para', 'para', 'para+lit', 'bullets', 'enum', 'doctest']
+            if self.fmt != 'epytext' and depth == 0 and top:
+                kinds = kinds + ['version']
             k = r.choice(kinds) if i else 'para'             # every container starts with a paragraph
             if prev in ('bullets', 'enum') and k in ('bullets', 'enum'):
                 k = 'para'        # two lists in a row would read as one list / a nested list
@@ -133,6 +135,22 @@ class Gen:
                         out.append('')
                         out += self.blocks(len(pad) + len(bullet), depth + 1, sink, False, False)
                         need_blank = True
+            elif k == 'version':
+                # reST: ".. versionadded:: <version> [text on the directive line]" followed by an optional indented body;
+                # both the text on the directive line and the body belong to the description
+                d = r.choice(['versionadded', 'versionchanged', 'deprecated'])
+                inline_toks = [self.tok() for _ in range(r.randint(0, 3))]
+                sink.extend(inline_toks)
+                out.append(pad + f'.. {d}:: {r.randint(1, 9)}.{r.randint(0, 9)}' + (' ' + ' '.join(inline_toks) if inline_toks else ''))
+                if r.random() < .7:
+                    if r.random() < .5 or not inline_toks:
+                        out.append('')
+                    for ln in self.para_lines(sink, 1, 5):
+                        out.append(pad + '   ' + ln)
+                    if r.random() < .4:
+                        out.append('')
+                        for ln in self.para_lines(sink, 1, 4):
+                            out.append(pad + '   ' + ln)
             elif k == 'doctest':
                 dt = self.tok()
                 sink.extend([dt, dt])          # the token occurs in two source lines of the example
@@ -217,13 +235,17 @@ class Gen:
         r, fmt = self.r, self.fmt
         out: List[str] = []
         pool = [('param', 'a'), ('param', 'b'), ('param', 'args'), ('param', 'kw'), ('type', 'a'), ('return', None), ('rtype', None), ('raise', 'ValueError'),
-                ('raise', 'KeyError'), ('note', None), ('see', None), ('author', None), ('since', None), ('keyword', 'extra'), ('custom', 'z'), ('warns', 'UserWarning')]
+                ('raise', 'KeyError'), ('note', None), ('see', None), ('author', None), ('since', None), ('keyword', 'extra'), ('custom', 'z'), ('warns', 'UserWarning'),
+                ('yield', None), ('ytype', None)]
         chosen = [p for p in pool if r.random() < .3]
         if not chosen:
             return out
+        if r.random() < .5:
+            # the manuals fix no order among fields: a type field may come before the description it belongs to
+            r.shuffle(chosen)
         for tag, key in chosen:
             toks: List[str] = []
-            if tag in ('type', 'rtype'):
+            if tag in ('type', 'rtype', 'ytype'):
                 t = self.tok()
                 toks.append(t)
                 paras = [[f'C{{{t}}}' if fmt == 'epytext' else f'``{t}``']]
@@ -233,14 +255,14 @@ class Gen:
             # field: the tag, its optional argument, a colon, then the body; continuation lines and further paragraphs
             # are indented relative to the tag
             self.emit_body(head, 4, paras, out)
-            label = {'param': 'Parameters', 'keyword': 'Parameters', 'type': 'Parameters', 'return': 'Returns', 'rtype': 'Returns', 'raise': 'Raises', 'warns': 'Warns',
+            label = {'param': 'Parameters', 'keyword': 'Parameters', 'type': 'Parameters', 'return': 'Returns', 'rtype': 'Returns', 'raise': 'Raises', 'warns': 'Warns', 'yield': 'Yields', 'ytype': 'Yields',
                      'note': 'Note', 'see': 'See Also', 'author': 'Author', 'since': 'Present Since', 'custom': 'Unknown Field: custom'}[tag]
             k = key
             if tag == 'param' and key == 'args':
                 k = '*args'
             if tag == 'param' and key == 'kw':
                 k = '**kw'
-            if tag == 'rtype':
+            if tag in ('rtype', 'ytype'):
                 k = None
             self.exp.fields.append((label, k, toks))
             if tag == 'custom':
